@@ -1,11 +1,17 @@
 (* C03 Packed bytes follow the ISO 8583 layout the spec defines.
    Proved for every primitive field: the packed bytes are the length prefix - exactly the prefixer's width, in its
    alphabet, decoding to the number of value units after padding - followed by the padded value in the field's
-   encoding, and bytes laid out that way unpack to the value. The reference codec for composites and messages is the
-   independent encoder of the harness (harness/reflayout.go), compared with Pack/Unpack directly on every generated
-   case; its Gallina counterpart (C03_statement) is not yet written. *)
-From Iso Require Import Model.Base Model.Padding Model.Encoding Model.Prefix Model.Bitmap Model.Spec Model.Field
-     Proofs.BaseLemmas Proofs.EncodingProofs Proofs.PrefixProofs Proofs.FieldProofs.
+   encoding, and bytes laid out that way unpack to the value; for every tagged or positional composite: its prefix
+   followed by its set subfields - and nothing else - in the spec's sort order, each preceded by its encoded tag when
+   tags travel; for every message (auto-expanding bitmap): the MTI, then the bitmap of k >= 1 blocks in which the first
+   bit of a block is set iff another block follows and, elsewhere, bit i is set iff data element i is populated, then
+   the populated data elements in strictly ascending order. Conversely these bytes unpack to the values they were
+   built from (C01_field_roundtrip, C01_message_roundtrip). Composites with a bitmap of subfields and fixed message
+   bitmaps: the independent encoder of the harness (harness/reflayout.go) is the reference, compared with Pack/Unpack
+   on every generated case. *)
+From Iso Require Import Model.Base Model.Padding Model.Encoding Model.Prefix Model.Bitmap Model.Spec Model.Field Model.Message
+     Proofs.BaseLemmas Proofs.EncodingProofs Proofs.PrefixProofs Proofs.FieldProofs Proofs.CompositeProofs Proofs.MessageRoundtrip Proofs.LayoutProofs.
+From Coq Require Import Sorting.Sorted Sorting.Permutation.
 
 Theorem C03_prim_layout : forall p st b, coherent_pspec p -> prim_in_domain p st -> prim_pack p st = Ok b ->
   exists raw pre body,
@@ -29,6 +35,40 @@ Theorem C03_prim_layout_unpacks : forall p st b, coherent_pspec p -> prim_in_dom
   forall st0 rest, prim_unpack p st0 (b ++ rest) = (st, UOk (zlen b)).
 Proof. exact prim_roundtrip. Qed.
 Print Assumptions C03_prim_layout_unpacks.
+
+Theorem C03_composite_layout : forall pref len t subs set sts b, wf_pref pref -> pack_f (FComp pref len (CTag t) subs) (SComp set sts) = Ok b ->
+  exists pre elems, b = pre ++ concat elems /\
+    Forall2 (elem_of (gop subs) t sts) (filter (fun tag => bmem tag set) (ordered_tags (CTag t) subs)) elems /\
+    enc_len pref len (zlen (concat elems)) = Ok pre /\
+    (zlen (concat elems) <= max_int -> (pref <> PBerTLV -> zlen pre = pref_width pref) /\ pref_alphabet pref pre = true /\
+       forall rest, dec_len pref len (pre ++ rest) = Ok (zlen (concat elems), zlen pre)).
+Proof. exact comp_layout. Qed.
+Print Assumptions C03_composite_layout.
+
+(* the order of the elements: the tags of the specification, sorted *)
+Theorem C03_composite_order : forall mode subs, Permutation (map fst subs) (ordered_tags mode subs).
+Proof. exact ordered_tags_is_perm. Qed.
+Print Assumptions C03_composite_order.
+
+Theorem C03_message_layout : forall S m m' b, bm_auto (ms_bm S) = true -> 1 <= bm_len (ms_bm S) ->
+  NoDup (m_present m) -> zmem 0 (m_present m) = true ->
+  (forall id, zmem id (m_present m) = true -> id = 0 \/ id = 1 \/ (2 <= id /\ bm_is_presence_bit (ms_bm S) id = false)) ->
+  m_pack S m = (m', Ok b) ->
+  exists l mtib bmb parts,
+    b = mtib ++ bmb ++ concat parts /\
+    pack_f (FPrim (ms_mti S)) (m_mti m) = Ok mtib /\
+    bm_pack (ms_bm S) (m_bm m') = Ok bmb /\
+    StronglySorted Z.lt l /\ (forall id, In id l <-> (2 <= id /\ zmem id (m_present m) = true)) /\
+    Forall2 (fun id p => exists s st, zlookup id (ms_fields S) = Some s /\ zlookup id (m_fields m) = Some st /\ pack_f s st = Ok p) l parts /\
+    (forall i, 2 <= i -> bm_is_presence_bit (ms_bm S) i = false -> bm_isset (m_bm m') i = zmem i (m_present m)).
+Proof. exact message_layout. Qed.
+Print Assumptions C03_message_layout.
+
+Theorem C03_bitmap_blocks : forall S m m' b, bm_auto (ms_bm S) = true -> 1 <= bm_len (ms_bm S) -> m_pack S m = (m', Ok b) ->
+  exists k, 1 <= k /\ zlen (m_bm m') = k * bm_len (ms_bm S) /\
+            forall j, 0 <= j < k -> bm_isset (m_bm m') (j * (bm_len (ms_bm S) * 8) + 1) = (j <? k - 1).
+Proof. exact message_bitmap_blocks. Qed.
+Print Assumptions C03_bitmap_blocks.
 
 Definition p3 : pspec := {| ps_kind := KNumeric; ps_enc := EncBCD; ps_pref := PVar PfEBCDIC 2; ps_len := 5; ps_pad := PadNone; ps_packer := PkDefault |}.
 Example C03_ex : prim_pack p3 (SNumeric 123) = Ok [xf0; xf3; x01; x23].
